@@ -2,7 +2,9 @@
 /repo/selfies), refresh seeded/*/meta.json 'static_checks' and seeded/SUMMARY.md.   usage: runseeded.py [id-prefix,...]"""
 import json, os, shutil, subprocess, sys, tempfile
 from concurrent.futures import ThreadPoolExecutor
-only = sys.argv[1].split(",") if len(sys.argv) > 1 else None
+args = [a for a in sys.argv[1:] if not a.startswith("--")]
+OWN_ONLY = "--own-only" in sys.argv       # re-run just the check of the property each change breaks (keeps the other columns)
+only = args[0].split(",") if args else None
 man = json.load(open("/verif/MANIFEST.json"))
 pids = [c["property_id"] for c in man["checks"]]
 jobs = []
@@ -19,7 +21,7 @@ def run(job):
         if r.returncode != 0:
             return (sid, "APPLY-FAILED " + r.stderr[:200], {})
         res = {}
-        for q in pids:
+        for q in ([sid.split("-")[0]] if OWN_ONLY else pids):
             rr = subprocess.run(["/venv/bin/python", "-m", "sa.check", q, "--scratch", "--repo", d], cwd="/verif", capture_output=True, text=True)
             rules = sorted({l.split()[1].split("=", 1)[1] for l in rr.stdout.splitlines() if l.startswith("SCRATCH-VIOLATION")})
             res[q] = {"exit": rr.returncode, "rules": rules}
@@ -33,10 +35,16 @@ with ThreadPoolExecutor(14) as ex:
         if status != "ok":
             print(sid, status)
             continue
-        caught_by = {q: r["rules"] for q, r in res.items() if r["exit"] == 1}
-        errors = sorted(q for q, r in res.items() if r["exit"] == 2)
         p = "/verif/seeded/%s/meta.json" % sid
         meta = json.load(open(p))
+        caught_by = {q: r["rules"] for q, r in res.items() if r["exit"] == 1}
+        errors = sorted(q for q, r in res.items() if r["exit"] == 2)
+        if OWN_ONLY:
+            old = meta.get("static_checks", {})
+            cb = {q: r for q, r in old.get("caught_by", {}).items() if q != pid}
+            cb.update(caught_by)
+            caught_by = cb
+            errors = sorted(set(e for e in old.get("analysis_error_in", []) if e != pid) | set(errors))
         meta["static_checks"] = {"caught_by_own_property_check": pid in caught_by, "caught_by": caught_by, "analysis_error_in": errors,
                                  "how": "patch applied to a scratch copy of /repo/selfies; /venv/bin/python -m sa.check <id> --scratch --repo <copy> for every registered check (dev/runseeded.py)"}
         json.dump(meta, open(p, "w"), indent=1)
